@@ -68,6 +68,18 @@ DESC = {
  "S2-m1": "a send future that parks on a full buffered channel no longer wakes a receiver (needs cap+1 receivers, cap+1 sends)",
  "S2-m2": "ArrayBuf::drop leaks the wrapped part of a full, rotated buffer",
  "S2-m3": "last mpmc receiver skips close()/clear() if no sender handle is left (a future outliving all handles still receives)",
+ "R1-m1": "explicit `Sync for GenericMutexGuard where T: Sync` impl deleted (auto trait makes the guard Sync for T: Send + !Sync)",
+ "R1-m2": "GenericSharedSemaphore: Send for a lock that is Send but not Sync",
+ "R1-m3": "impl Unpin for shared::ChannelSendFuture",
+ "R2-m1": "timer check_expirations collects wakers into a Vec when more than 8 timers expire in one call",
+ "R2-m2": "SharedStream boxes its pending receive future (one allocation per item)",
+ "R2-m3": "shared acquire-future Drop collects the wakers it unblocks into a Vec",
+ "R3-m1": "list: drain() no longer resets tail",
+ "R3-m2": "list: remove() of a non-member from an EMPTY list falls through into the unlink code",
+ "R3-m3": "list: reverse_drain() leaves stale next links on drained nodes",
+ "R4-m1": "shared oneshot broadcast: dropping the last receiver handle also clears the stored value (outstanding futures get None)",
+ "R4-m2": "state broadcast: try_receive returns None once the channel is closed",
+ "R4-m3": "timer check_expirations wakes at most 32 timers per call",
 }
 
 def first_sentence(meta):
